@@ -39,7 +39,8 @@ class Module:
 
     def zero_grad(self):
         for p in self.parameters():
-            if p.requires_grad: p.zero_()
+            # frozen parameters that still hold a gradient (from before they were frozen) are reset as well
+            if p.requires_grad or p.has_grad(): p.zero_()
     
     def freeze(self):
         for p in self.parameters():
